@@ -12,11 +12,30 @@ import (
 	"strings"
 )
 
+// Two sentinel characters in tree strings (never produced by the generators otherwise):
+// c2surr is printed as an unpaired UTF-16 surrogate escape (finding F68), c2raw always raw (so that
+// the caller can splice bytes that are not UTF-8 in its place, repair F70).
+const c2surr = rune(0xFDD0)
+const c2raw = rune(0xFDD1)
+
+var c2surrEscapes = []string{"udc00", "udfff", "ud800", "udbff", "uDEAD", "uD83d", "uDe00"}
+
 // values: nil, bool, c2num, string, []interface{}, *c2obj
 type c2num string
 type c2obj struct {
 	keys []string
 	vals []interface{}
+}
+
+func (o *c2obj) hasDup() bool {
+	for i, k := range o.keys {
+		for _, k2 := range o.keys[i+1:] {
+			if k == k2 {
+				return true
+			}
+		}
+	}
+	return false
 }
 
 func (o *c2obj) find(k string) int {
@@ -174,6 +193,10 @@ func c2canonStr(b *bytes.Buffer, s string) {
 	for i := 0; i < len(s); i++ {
 		c := s[i]
 		switch {
+		case strings.HasPrefix(s[i:], string(c2surr)):
+			b.WriteByte('\\')
+			b.WriteString(c2surrEscapes[0])
+			i += len(string(c2surr)) - 1
 		case c == '"' || c == '\\':
 			b.WriteByte('\\')
 			b.WriteByte(c)
@@ -220,6 +243,15 @@ func (p *c2presenter) str(b *bytes.Buffer, s string) {
 	// sometimes escape every character (so that a whole key such as signatures is spelled in escapes)
 	all := p.r.Intn(12) == 0
 	for _, r := range s {
+		if r == c2surr {
+			b.WriteByte('\\')
+			b.WriteString(c2surrEscapes[p.r.Intn(len(c2surrEscapes))])
+			continue
+		}
+		if r == c2raw {
+			b.WriteRune(r)
+			continue
+		}
 		must := r < 0x20 || r == '"' || r == '\\'
 		ch := p.r.Intn(10)
 		tc, hasTwo := c2twoChar[r]
@@ -273,7 +305,7 @@ func (p *c2presenter) val(b *bytes.Buffer, v interface{}) {
 		for i := range idx {
 			idx[i] = i
 		}
-		if p.fancy {
+		if p.fancy && !x.hasDup() { // with a repeated name the order of the members matters
 			p.r.Shuffle(len(idx), func(i, j int) { idx[i], idx[j] = idx[j], idx[i] })
 		}
 		b.WriteByte('{')
